@@ -166,11 +166,28 @@ CHECKS = [
                 "enumerated, strings symbolic. Replays go through the public API with the string a\"b&<c. F4 (picture descr, movie "
                 "name, OLE progId, chart number formats) found by these obligations and repaired by four fix: commits.",
     },
+    {
+        "property_id": "C09",
+        "technique": "contract-based deductive verification (pyvc over the real xmlchemy attribute closures and proxy chains; z3)",
+        "category": "proof",
+        "text": "Part A: for every OptionalAttribute/RequiredAttribute declaration of every registered element class (one per owner class "
+                "and property) the real set_attr_value / get_attr_value closures, specialised by their captured declaration, run on an "
+                "abstract element with a ghost attribute map, per input kind (int, real, bool, z3 string, enum member, None): "
+                "get(set(e, v)) equals v to the type's quantum, the declared default / None removes the attribute and the getter "
+                "reports the default, a rejected value raises TypeError/ValueError and nothing was written (validate before write), "
+                "no other attribute is touched. Part B: x/y/cx/cy through _get_xfrm_attr/_set_xfrm_attr with independence of the "
+                "other coordinates, Font.size (centipoint quantum, None), Adjustment normalise/denormalise (1e-5), paragraph line "
+                "spacing (spcPct leg; None).",
+        "note": "Assumed: lxml get/set/attrib are independent per attribute name; the save/re-open leg and the public properties not "
+                "in Part B (paragraph/space/margins/line width/slide size/rotation ...) are exercised only natively by the bounded "
+                "C09.native_reopen job (22 properties, independence, one save/re-open, None, out-of-domain values; never counted as "
+                "proved). IEEE doubles as reals. isinstance(value, Length) on symbolic ints is not expressible (spcPts leg native only).",
+    },
 ]
 
 _PENDING = "check not built yet in this session (planned, see DESIGN.md section 5)"
 NOT_APPLICABLE = [
     {"property_id": p, "reason": _PENDING}
-    for p in ["C01", "C02", "C03", "C04", "C07", "C09", "C12", "C13", "C16",
+    for p in ["C01", "C02", "C03", "C04", "C07", "C12", "C13", "C16",
               ]
 ]
